@@ -1920,10 +1920,17 @@ func (s *scanner) addEntryPoints(entryPoints []EntryPoint) []graph.EntryPoint {
 		isGlob  bool
 	}
 	entryPointInfos := make([]entryPointInfo, len(entryPoints))
+
+	// Each goroutine logs to its own deferred log so that the order of the
+	// messages doesn't depend on the order in which the goroutines run
+	entryPointLogs := make([]logger.Log, len(entryPoints))
 	entryPointWaitGroup := sync.WaitGroup{}
 	entryPointWaitGroup.Add(len(entryPoints))
 	for i, entryPoint := range entryPoints {
+		entryPointLogs[i] = logger.NewDeferLog(logger.DeferLogAll, s.log.Overrides)
+		entryPointLogs[i].Level = s.log.Level
 		go func(i int, entryPoint EntryPoint) {
+			log := entryPointLogs[i]
 			var importer logger.Path
 			if entryPoint.InputPathInFileNamespace {
 				importer.Namespace = "file"
@@ -1945,10 +1952,10 @@ func (s *scanner) addEntryPoints(entryPoints []EntryPoint) []graph.EntryPoint {
 						}
 						entryPointInfos[i] = info
 						if msg != nil {
-							s.log.AddID(msg.ID, msg.Kind, nil, logger.Range{}, msg.Data.Text)
+							log.AddID(msg.ID, msg.Kind, nil, logger.Range{}, msg.Data.Text)
 						}
 					} else {
-						s.log.AddError(nil, logger.Range{}, fmt.Sprintf("Could not resolve %q", entryPoint.InputPath))
+						log.AddError(nil, logger.Range{}, fmt.Sprintf("Could not resolve %q", entryPoint.InputPath))
 					}
 					entryPointWaitGroup.Done()
 					return
@@ -1959,7 +1966,7 @@ func (s *scanner) addEntryPoints(entryPoints []EntryPoint) []graph.EntryPoint {
 			resolveResult, didLogError, debug := RunOnResolvePlugins(
 				s.options.Plugins,
 				s.res,
-				s.log,
+				log,
 				s.fs,
 				&s.caches.FSCache,
 				nil,
@@ -1974,7 +1981,7 @@ func (s *scanner) addEntryPoints(entryPoints []EntryPoint) []graph.EntryPoint {
 			)
 			if resolveResult != nil {
 				if resolveResult.PathPair.IsExternal {
-					s.log.AddError(nil, logger.Range{}, fmt.Sprintf("The entry point %q cannot be marked as external", entryPoint.InputPath))
+					log.AddError(nil, logger.Range{}, fmt.Sprintf("The entry point %q cannot be marked as external", entryPoint.InputPath))
 				} else {
 					entryPointInfos[i] = entryPointInfo{results: []resolver.ResolveResult{*resolveResult}}
 				}
@@ -1990,12 +1997,17 @@ func (s *scanner) addEntryPoints(entryPoints []EntryPoint) []graph.EntryPoint {
 						})
 					}
 				}
-				debug.LogErrorMsg(s.log, nil, logger.Range{}, fmt.Sprintf("Could not resolve %q", entryPoint.InputPath), "", notes)
+				debug.LogErrorMsg(log, nil, logger.Range{}, fmt.Sprintf("Could not resolve %q", entryPoint.InputPath), "", notes)
 			}
 			entryPointWaitGroup.Done()
 		}(i, entryPoint)
 	}
 	entryPointWaitGroup.Wait()
+	for _, log := range entryPointLogs {
+		for _, msg := range log.Done() {
+			s.log.AddMsg(msg)
+		}
+	}
 
 	if s.options.CancelFlag.DidCancel() {
 		return nil
